@@ -298,7 +298,12 @@ let () =
                (* the property on the implementation's numbers *)
                (* byte score of position i in an observed score matrix: the extracted StripedScores Index<usize>
                   (DiscModel.sc_index) on the observed cells *)
-               let u8s_of key =
+               let u8s_memo = Hashtbl.create 16 in
+               let rec u8s_of key =
+                 match Hashtbl.find_opt u8s_memo key with
+                 | Some r -> r
+                 | None -> let r = u8s_of_raw key in Hashtbl.add u8s_memo key r; r
+               and u8s_of_raw key =
                  if key = "ds" then (try Some (List.map int_of_string (split ',' (oget "ds"))) with _ -> None)
                  else
                    let cols = if key = "g16" || key = "s16" || (String.length key > 5 && String.sub key 0 5 = "hf16_") then 16 else 32 in
